@@ -31,7 +31,7 @@ from ..common import Ctx, S, unS, differential, run_model, sx_opt
 from .. import trees
 
 import htmltools
-from htmltools import HTMLDependency, HTMLDocument, Tag, TagList, div, span
+from htmltools import HTMLDependency, HTMLDocument, Tag, TagList, div, span, tags
 
 # --------------------------------------------------------------------------------------
 # small helpers
@@ -122,6 +122,10 @@ DIR_PIECES = ["a", "b", "css", "js", "sub dir", "d%20", "été", "日", "x#y", "
 DEP_NAMES = ["dep", "my.dep_x", "Lib-2", "w~1", "a", "x_y.z"]
 VERSIONS = ["1.0", "2.3.4", "0.0.1", "1.0.0b1", "1!2.0", "1.0+local.1", "2.0.post1", "1.0.dev3", "10"]
 LIBDIRS = [None, "", "lib", "a/b"]
+# what the saved content is -- the three construction cases of HTMLDocument._gen_html_tag_tree:
+# a fragment, a lone <body> tag, a lone <html> tag (with / without its own head, dependencies
+# inside body, inside head, or in both)
+SHAPES = ["fragment", "body", "html_head", "html_nohead", "html_nobody", "html_deps_in_head", "html_deps_both"]
 URL_HREFS = ["https://cdn.example.org/lib", "https://cdn.example.org/lib/", "//cdn.example.org/x",
              "/static/lib/", "https://h.example/a%20b", "http://h.example/x/y/"]
 NONTRIVIAL_CHARS = set(" %#?&'\"<>+\\\t\n;=")
@@ -173,6 +177,17 @@ def rand_files(rng, lo=1, hi=6) -> dict[str, list[int]]:
     return files
 
 
+def prefix_free_files(files: dict) -> dict:
+    """drop entries that are (or lie below) another entry: a file cannot also be a directory"""
+    out: dict = {}
+    for p, c in files.items():
+        parts = p.split("/")
+        if not any(parts[:min(len(parts), len(q.split("/")))] == q.split("/")[:min(len(parts), len(q.split("/")))]
+                   for q in out):
+            out[p] = c
+    return out
+
+
 def rand_dep(rng, idx: int, force: dict | None = None) -> dict:
     """a dependency description; its source files live in directory src<idx> of the scenario"""
     kind = rng.choice(["dir", "dir", "dir", "dir", "pkg", "pkg", "url", "none", "react"])
@@ -209,9 +224,8 @@ def rand_dep(rng, idx: int, force: dict | None = None) -> dict:
         d["stale_kind"] = "files"
         d["stale"] = {rand_relpath(rng): rand_bytes(rng) for _ in range(rng.randrange(1, 4))}
         if d["files"] and rng.random() < 0.5:    # a stale file with the name of a real one
-            d["stale"][sorted(d["files"])[0]] = [0xEE, 0xEE]
-            d["stale"] = {k: v for k, v in d["stale"].items()
-                          if not any(k != o and (k.startswith(o + "/") or o.startswith(k + "/")) for o in d["stale"])}
+            d["stale"] = {sorted(d["files"])[0]: [0xEE, 0xEE], **d["stale"]}
+        d["stale"] = prefix_free_files(d["stale"])
     return d
 
 
@@ -219,8 +233,9 @@ def rand_scenario(rng, **force) -> dict:
     n = rng.choice([1, 1, 2, 2, 3])
     sc = {"libdir": rng.choice(LIBDIRS), "iv": rng.random() < 0.5,
           "host": rng.choice(["doc", "tag", "taglist"]),
+          "shape": rng.choice(SHAPES + ["fragment", "html_head"]),
           "deps": [rand_dep(rng, i) for i in range(n)],
-          "outside": {rand_relpath(rng): rand_bytes(rng) for _ in range(rng.randrange(1, 3))},
+          "outside": prefix_free_files({rand_relpath(rng): rand_bytes(rng) for _ in range(rng.randrange(1, 3))}),
           "missing": None}
     sc.update(force)
     return sc
@@ -252,7 +267,7 @@ class Realised:
         self.msx: list = []          # the dependencies as the model sees them
         self.srcdirs: list[str | None] = []
         os.makedirs(self.docdir)
-        self.configure(sc["libdir"], sc["iv"], sc["host"])
+        self.configure(sc["libdir"], sc["iv"], sc["host"], sc.get("shape", "fragment"))
         pkgroot = os.path.join(top, "pkgs")
         for i, d in enumerate(sc["deps"]):
             kind = d["kind"]
@@ -320,8 +335,8 @@ class Realised:
             i, p = sc["missing"]
             os.remove(os.path.join(self.srcdirs[i], p))
 
-    def configure(self, libdir, iv: bool, host: str) -> None:
-        self.libdir, self.iv, self.host = libdir, iv, host
+    def configure(self, libdir, iv: bool, host: str, shape: str = "fragment") -> None:
+        self.libdir, self.iv, self.host, self.shape = libdir, iv, host, shape
         self.destdir = os.path.join(self.docdir, libdir) if libdir else self.docdir
 
     def namever(self, i: int, iv: bool | None = None) -> str:
@@ -367,12 +382,36 @@ class Realised:
         return out
 
     def host_object(self):
-        kids = [div("content", self.deps[0]) if self.deps else div("content")] + list(self.deps[1:]) + [span("end")]
+        """the object save_html is called on.  Dependencies stay in document order dep0, dep1, ...
+        (the order in which save_html copies them) in every shape."""
+        deps = list(self.deps)
+        kids = [div("content", deps[0]) if deps else div("content")] + deps[1:] + [span("end")]
+        shape = self.shape
+        if shape == "fragment":
+            if self.host == "doc":
+                return HTMLDocument(TagList(*kids))
+            if self.host == "tag":
+                return div(*kids, id="host")
+            return TagList(*kids)
+        if shape == "body":
+            top = tags.body(*kids, id="b")
+        elif shape == "html_head":          # own head, dependencies inside body
+            top = tags.html(tags.head(tags.title("t")), tags.body(*kids), lang="en")
+        elif shape == "html_nohead":        # no head of its own
+            top = tags.html(tags.body(*kids))
+        elif shape == "html_nobody":        # neither head nor body
+            top = tags.html(*kids)
+        elif shape == "html_deps_in_head":  # every dependency inside head
+            top = tags.html(tags.head(tags.title("t"), *deps), tags.body(div("content"), span("end")))
+        elif shape == "html_deps_both":     # first dependency in head, the others in body
+            top = tags.html(tags.head(*deps[:1]), tags.body(div("content"), *deps[1:], span("end")))
+        else:
+            raise ValueError(shape)
         if self.host == "doc":
-            return HTMLDocument(TagList(*kids))
+            return HTMLDocument(top) if len(deps) % 2 else HTMLDocument(TagList(top))
         if self.host == "tag":
-            return div(*kids, id="host")
-        return TagList(*kids)
+            return top
+        return TagList(top)
 
 
 class UrlCollector(html.parser.HTMLParser):
@@ -503,7 +542,7 @@ def copy_step(ctx: Ctx, r: Realised, mode: str, pending: list, case: dict) -> No
             return
         if mode == "save":
             if out[1] != r.file:
-                viol(f"save_html on a {r.host} did not return the path it wrote",
+                viol(f"save_html on a {r.host} ({r.shape}) did not return the path it wrote",
                      {"impl_output": repr(out[1]), "expected": r.file})
             if not os.path.isfile(r.file):
                 viol("save_html did not write the file", {"impl_output": None, "expected": r.file})
@@ -623,8 +662,27 @@ def fixed_scenarios() -> list[dict]:
         dep5 = {"name": "react", "version": "17.0.2", "kind": "react", "all_files": (len(out) % 2 == 0), "files": {},
                 "scripts": ["react.production.min.js"], "styles": [], "href": None,
                 "stale": {"junk.js": [1]}, "stale_kind": "files"}
-        out.append({"libdir": libdir, "iv": iv, "host": host, "deps": [dep, dep2, dep3, dep4, dep5],
+        out.append({"libdir": libdir, "iv": iv, "host": host, "shape": "fragment",
+                    "deps": [dep, dep2, dep3, dep4, dep5],
                     "outside": {"keep.txt": [1, 2, 3], "lib/other-1.0/o.js": [4]}, "missing": None})
+    return out
+
+
+def shape_scenarios() -> list[dict]:
+    """complete cross: content shape x way of calling save_html x libdir x include_version, with two
+    local dependencies (one listing awkward file names, one all_files) and a URL-sourced one"""
+    files = {"a b.js": [1, 2], "s/\u00e9%.css": [3], "%41.js": [4]}
+    out = []
+    for shape, host, libdir, iv in itertools.product(SHAPES, ["doc", "tag", "taglist"], LIBDIRS, [True, False]):
+        dep = {"name": "dep", "version": "1.2", "kind": "dir", "all_files": False, "files": dict(files),
+               "scripts": ["a b.js", "%41.js"], "styles": ["s/\u00e9%.css"], "href": None,
+               "stale": {"old.txt": [9]}, "stale_kind": "files"}
+        dep2 = dict(dep, name="w~1", version="0.3", all_files=True, scripts=["a b.js"], styles=[], stale={},
+                    stale_kind="none", files=dict(files))
+        dep3 = {"name": "cdn", "version": "2.0", "kind": "url", "all_files": False, "files": {},
+                "scripts": ["x y.js"], "styles": [], "href": URL_HREFS[len(out) % 2], "stale": {}, "stale_kind": "none"}
+        out.append({"libdir": libdir, "iv": iv, "host": host, "shape": shape, "deps": [dep, dep2, dep3],
+                    "outside": {"keep.txt": [1]}, "missing": None})
     return out
 
 
@@ -645,6 +703,7 @@ def exhaustive_scenarios() -> list[dict]:
                    "styles": [n for n in listed if n.endswith(".css")], "href": None,
                    "stale": stale, "stale_kind": "files" if stale else "none"}
             out.append({"libdir": libdir, "iv": iv, "host": ["doc", "tag", "taglist"][len(out) % 3],
+                        "shape": SHAPES[(len(out) // 3) % len(SHAPES)],
                         "deps": [dep], "outside": {"keep.txt": [1]}, "missing": None})
     return out
 
@@ -655,7 +714,7 @@ def exhaustive_scenarios() -> list[dict]:
 # --------------------------------------------------------------------------------------
 def rand_history(rng, pattern: str | None = None) -> dict:
     """a base scenario plus 2-4 copy/save steps separated by 0-2 mutation steps.
-    step ::= ["save"|"copy", libdir, iv, host]
+    step ::= ["save"|"copy", libdir, iv, host, shape]
            | ["delete", i, p] | ["restore", i, p, bytes] | ["change", i, p, bytes]
            | ["add", i, p, bytes] | ["rename", i, p, q]
            | ["stale", i, rel, bytes, libdir, iv]
@@ -685,7 +744,7 @@ def rand_history(rng, pattern: str | None = None) -> dict:
         if not same and rng.random() < 0.35:
             cfg[1] = rng.random() < 0.5
         cfg[2] = rng.choice(["doc", "tag", "taglist"])
-        return [rng.choice(["save", "save", "copy"]), cfg[0], cfg[1], cfg[2]]
+        return [rng.choice(["save", "save", "copy"]), cfg[0], cfg[1], cfg[2], rng.choice(SHAPES)]
 
     def mutation():
         i = rng.choice(loc)
@@ -774,7 +833,7 @@ def run_history(ctx: Ctx, h: dict, top: str, tag: str, pending: list) -> int:
     try:
         for k, st in enumerate(h["steps"]):
             if st[0] in ("save", "copy"):
-                r.configure(st[1], st[2], st[3])
+                r.configure(st[1], st[2], st[3], st[4] if len(st) > 4 else "fragment")
                 n += 1
                 copy_step(ctx, r, st[0], pending,
                           {"mode": "history", "scenario": h["scenario"], "steps": h["steps"], "at_step": k})
@@ -827,7 +886,8 @@ def run(ctx: Ctx) -> None:
                 "out-of-domain prefixes for the URL correspondence) x include_version x all_files, file names "
                 "built from pieces containing space % # ? & ' \" < > + \\ tab newline non-ASCII and emoji, nested "
                 "directories, dot-files, the same file listed twice; scenarios on real temporary directories: "
-                "save_html on HTMLDocument / Tag / TagList and copy_to directly, with stale files (also with "
+                "save_html on HTMLDocument / Tag / TagList whose content is a fragment, a lone <body> tag or a lone "
+                "<html> tag (with / without head and body, dependencies inside head, body or both), and copy_to directly, with stale files (also with "
                 "the names of real files) in the target directory, bystander files, a regular file in place of "
                 "the target directory, and one scenario per choice of missing listed file; histories: 2-4 copy/save steps (changing libdir / "
                 "include_version / host) on the same dependency objects and directories in one process, separated "
@@ -1046,6 +1106,10 @@ def run(ctx: Ctx) -> None:
             check_pending(ctx, name, pending)
 
         go(scen_save, "save", "save_html copies")
+        shp = shape_scenarios()
+        if ctx.quick:      # every shape x host x include_version; libdir rotates
+            shp = [sc for k, sc in enumerate(shp) if (k // 2) % 4 == (k // 8) % 4]
+        go(shp, "save", "save_html, content shape x host x libdir x include_version")
         if not ctx.quick:
             ex = exhaustive_scenarios()
             go(ex, "save", "save_html copies, exhaustive small scope")
